@@ -342,6 +342,11 @@ func runCase(s *sess, tc *tcase) *finding {
 	n0 := s.stub.NumCalls()
 	s.ncmd++
 	err := tc.do(s.c)
+	if err == nil {
+		// everything the client sent has been consumed by the server (a string that smuggled a
+		// second command would still be executing otherwise)
+		s.p.WaitQuiet()
+	}
 	calls := s.stub.CallsFrom(n0)
 	mk := func(what, msg string) *finding {
 		d := map[string]interface{}{"issued": tc.desc, "recorded": fmtCalls(calls), "what": msg, "config": s.cfg.Name}
